@@ -23,6 +23,11 @@ func NewUnixFSFile(ctx context.Context, substrate ipld.Node, lsys *ipld.LinkSyst
 	if err != nil {
 		return nil, err
 	}
+	if links.Kind() != ipld.Kind_List {
+		// not a dag-pb node (e.g. a dag-json or dag-cbor block with a "Links" entry of another
+		// kind): the readers iterate the links as a list
+		return nil, ipld.ErrWrongKind{TypeName: "unixfs file links", MethodName: "NewUnixFSFile", AppropriateKind: ipld.KindSet_JustList, ActualKind: links.Kind()}
+	}
 	if links.Length() == 0 {
 		// no children.
 		return newWrappedNode(substrate)
